@@ -17,7 +17,7 @@ ID = "C17"
 TITLE = "mGH accepts every graph representation and degrades gracefully"
 CASE_TIMEOUT_S = 120.0
 PLAN = {
-    "quick": {"runs": 4000, "chunk": 40, "shrink_s": 30.0},
+    "quick": {"runs": 16000, "chunk": 40, "shrink_s": 30.0},
     "thorough": {"budget_s": 600.0, "chunk": 25, "shrink_s": 60.0},
 }
 RULE = ("case kinds: 'repr' (one labelled pair rendered as nested lists / dense ndarray / CSR / CSC / COO x upper / "
